@@ -69,8 +69,8 @@ def describe(tier):
              'bracket mentions sharing a bracket or not, under all option sets with <= d deviations over %s, syntaxes and '
              'boolean-list variants (True = explicit [disabled, checked, zed] / False = library default / empty = []): (k, d, syntaxes, explicit-list) in %s. '
              'Payload sweep E1: all payloads of <= %d units from %d units in hosts x[a=P], x[a="P"], x[a=\'P\'], x[a={P}] (units '
-             'excluded per host as documented). Transition = one more mention / one option toggle / one appended unit.' % (
-                 len(MENU), list(OPTION_SPACE), b['sweeps'], b['payload'], len(PAYLOAD_UNITS)),
+             'excluded per host as documented). Hosts for <= 2 mentions: inside repeaters %s; the calls of a shard share one cache dict. Transition = one more mention / one option toggle / one appended unit.' % (
+                 len(MENU), list(OPTION_SPACE), b['sweeps'], b['payload'], len(PAYLOAD_UNITS), list(HOSTS_REPEAT)),
         nontrivial='the element carries at least two mentions of the same attribute name (a merge happens), or the payload has >= 2 units.',
         bounds=b,
         assumptions=['merging of flags between repeated mentions, compactBoolean under xhtml/xml, `..` shorthands, valuePrefix and '
